@@ -193,9 +193,23 @@ def _ql_typeexpr_get_types(
             subctx.path_scope = irast.ScopeTreeNode()
             subctx.expr_exposed = context.Exposure.UNEXPOSED
             orig_rewrites = ctx.env.type_rewrites.copy()
+            orig_views = ctx.env.schema_view_cache.copy()
             ir_set = dispatch.compile(ql_t.expr, ctx=subctx)
             stype = setgen.get_set_type(ir_set, ctx=subctx)
-            ctx.env.type_rewrites = orig_rewrites
+            # Drop whatever the operand registered, but do it *in place*:
+            # callers up the stack (policies.try_type_rewrite) hold a
+            # reference to this dict and finish by storing their result
+            # in it, so rebinding env.type_rewrites to a copy made them
+            # write into a stale object and the rewrite (i.e. the access
+            # policy of the type) was silently lost.
+            ctx.env.type_rewrites.clear()
+            ctx.env.type_rewrites.update(orig_rewrites)
+            # Schema aliases (and computed globals) compiled for the
+            # operand were cached with sets whose rewrites have just been
+            # dropped; a later use outside of `typeof` must recompile
+            # them so that the rewrites get registered again.
+            ctx.env.schema_view_cache.clear()
+            ctx.env.schema_view_cache.update(orig_views)
 
         return (None, True, [stype])
 
